@@ -307,9 +307,10 @@ PROPERTIES = {
                        "increments; each loop has an invariant bounding it (for-loops: in step with the loop variable; the two range-reduction "
                        "loops of sin: at most one round each after the exact remainder) and `assert(vticks <= 4 * w + 64)` stands at every exit "
                        "(log2_inner: both loops together at most 2 w + 2, the integer-part loop by a halving invariant); "
-                       "while / loop loops get `decreases bound - vticks`.  ln, log2, pow, cos have no loops of their own: their counters add the proved bounds of their callees at the call sites.  Kani: every harness "
+                       "while / loop loops get `decreases bound - vticks`.  ln, log2, pow, cos, tan have no loops of their own: their counters add the proved bounds of their callees at the call sites.  Kani: every harness "
                        "reads the hook iteration counter after the call and asserts ticks <= 4 * width + 64 (loops closed by unwinding assertions)",
-        "not_covered": ["tan (Kani on I9F23 only); the ghost counter is not part of a callee's contract: a caller adds the callee's proved bound by hand at the call site "
+        "not_covered": ["tan: its bound 54 = sin + cos is proved by Verus for every supported type (unit trig, `props C17:ticks` only - the panic-class obligations of tan's division are NOT owned by that rendering, "
+                        "they need the accuracy of cos; Kani decides them on I9F23 / I32F32 under C12); the ghost counter is not part of a callee's contract: a caller adds the callee's proved bound by hand at the call site "
                         "(log2 / ln: 2 w + 2 for log2_inner; pow: ln + exp = 3 w + 2; sin: 25 for cordic_rotation; cos: 27 for sin)"],
     },
     "C18": {
